@@ -117,7 +117,7 @@ PROPS_EXTRA = {
     'C01': ['Props.GenHeads', 'Props.GenJoin', 'Props.GenTraverse', 'Props.GenJoinTail'],
     'C02': ['Props.C13Facts', 'Props.GenHeads', 'Props.GenJoinTail'],
     'C03': ['Props.C19Gen', 'Props.GenTraverse'],
-    'C04': ['Props.C04Conc', 'Props.GenMisc'],
+    'C04': ['Props.C04Conc', 'Props.GenMisc', 'Props.GenAppend'],
     'C05': ['Props.GenTraverse', 'Props.GenJoinTail'],
     'C06': ['Props.EffectFacts', 'Props.CodecFacts', 'Props.GenHeads', 'Props.GenJoin', 'Props.GenJoinTail'],
     'C07': ['Props.CodecFacts'],
